@@ -91,7 +91,7 @@ fn sensitivity(lp: &Lp, i: usize, base: &Q) -> Option<Q> {
     if slopes.iter().all(|s| *s == slopes[0]) { Some(slopes[0].clone()) } else { None }
 }
 
-fn spec_to_m(spec: &LmSpec) -> M {
+pub fn spec_to_m(spec: &LmSpec) -> M {
     let lin = |a: &[f64]| -> E {
         let mut e: Option<E> = None;
         for (j, c) in a.iter().enumerate() {
